@@ -50,6 +50,8 @@ class C01(Prop):
                    'fault points cover the functions of %d anchored modules reached in the dry run; the handler entry '
                    'itself is excluded (a fault must be inside it to be containable)' % len(faults.MODULES),
                    'near-recursion-limit programs are not generated',
+                   'placeholder threads and finaliser timing are compared in the runs without an injected fault only (an '
+                   'injected fault replaces a whole agent function, also the one that releases the paused frame)',
                    'finalisers: a function binds at most one finalisable local, once, and the claim is that it is '
                    'finalised when the invocation ends, as without the agent; when a value that is rebound inside an '
                    'invocation dies, and the order in which two locals die at frame exit, cannot be preserved by any '
@@ -335,8 +337,11 @@ def run_case(self, recipe):
             # events of a thread that threading has already forgotten - creates a placeholder thread object.  That is
             # the standard library's doing at the moment of an (injected) internal error, not something the statement
             # holds the agent to: placeholder threads are compared in the runs without an injected fault only.
-            obs = dict(obs, log=[x for x in obs['log'] if not (x and x[0] == 'placeholder-threads-left')])
-            ref = dict(obs0, log=[x for x in obs0['log'] if not (x and x[0] == 'placeholder-threads-left')])
+            # Likewise the moment a finalisable local dies: an injected fault replaces a whole function of the agent
+            # (also the one whose last statement lets go of the paused frame), which no real error site does.
+            skip = ('placeholder-threads-left', 'finalised')
+            obs = dict(obs, log=[x for x in obs['log'] if not (x and x[0] in skip)])
+            ref = dict(obs0, log=[x for x in obs0['log'] if not (x and x[0] in skip)])
         else:
             ref = obs0
         if res.deadlock:
